@@ -144,7 +144,7 @@ func c12(c *Check) {
 			// id unchanged guard
 			found := false
 			for g := range c.P.FA(add).GuardSet() {
-				if strings.Contains(g, "!=b") && strings.Contains(g, "GetERC20Map(") && strings.Contains(g, "(TokenPair).GetID(") {
+				if strings.Contains(g, " != ") && strings.Contains(g, "GetERC20Map(") && strings.Contains(g, "(TokenPair).GetID(") {
 					found = true
 				}
 			}
